@@ -826,4 +826,385 @@ theorem zipAccount_iff (sizes : List Nat) : ∀ (run limit : Nat), run ≤ limit
       · intro h; omega
     · rw [ih _ _ (by omega)]; simp only [List.sum_cons]; omega
 
+/-! ## repaired decode sites (round 3) -/
+
+
+theorem inRange_of {i : Int} {n : Nat} (h0 : 0 ≤ i) (h1 : i < (n : Int)) : inRange i n = true := by
+  simp [inRange, h0, h1]
+
+theorem no_panic_xfComponent (a p : Bool) (id : Int) (t : Option Nat) : (xfComponent a p id t).isPanic = false := by
+  unfold xfComponent
+  cases t with
+  | none => rfl
+  | some n =>
+    simp only
+    split
+    · rename_i h
+      simp only [Bool.and_eq_true, decide_eq_true_eq] at h
+      rw [inRange_of (by omega) (by omega)]; rfl
+    · rfl
+
+theorem no_panic_getStyle' (i : StyleIn) : (getStyle i).isPanic = false := by
+  unfold getStyle
+  cases h : i.nXf with
+  | none => rfl
+  | some n =>
+    simp only
+    split
+    · rfl
+    · rename_i hg
+      rw [inRange_of (by omega) (by omega)]
+      simp only [not_true_eq_false, if_false]
+      apply bind_no_panic _ _ (no_panic_xfComponent _ _ _ _)
+      intro f _
+      apply bind_no_panic _ _ (no_panic_xfComponent _ _ _ _)
+      intro b _
+      apply bind_no_panic _ _ (no_panic_xfComponent _ _ _ _)
+      intro c _; rfl
+
+theorem idx?_lt {α : Type} {xs : List α} {i : Int} {k : Nat} (h : idx? xs i = some k) : k < xs.length := by
+  unfold idx? at h
+  split at h
+  · simp only [Option.some.injEq] at h; omega
+  · cases h
+
+theorem no_panic_activeSheetID' (v : Bool) (t : Int) (ids : List Int) : (activeSheetID v t ids).isPanic = false := by
+  have hf : ((if ids.length ≥ 1 then (match ids[0]? with | some id => Outcome.ok id | none => Outcome.panic) else Outcome.ok 0) : Outcome Int).isPanic = false := by
+    split
+    · rename_i h
+      have : ids[0]? = some ids[0] := List.getElem?_eq_getElem (by omega)
+      rw [this]; rfl
+    · rfl
+  unfold activeSheetID
+  simp only
+  split
+  · split
+    · rename_i hg
+      rw [idx?_some ids t (by omega) (by omega)]
+      simp only
+      have hlt : t.toNat < ids.length := by omega
+      rw [List.getElem?_eq_getElem hlt]
+      simp only
+      split
+      · rfl
+      · exact hf
+    · exact hf
+  · exact hf
+
+theorem no_panic_getDefaultFont' (n : Option Nat) (a b c : Bool) : (getDefaultFont n a b c).isPanic = false := by
+  unfold getDefaultFont
+  cases n with
+  | none => rfl
+  | some k =>
+    simp only
+    split
+    · rfl
+    · rw [inRange_of (by omega) (by omega)]
+      simp only [not_true_eq_false, if_false]
+      cases a <;> cases b <;> cases c <;> rfl
+
+theorem no_panic_themeColor' (len : Nat) (z : Bool) : (themeColor len z).isPanic = false := by
+  unfold themeColor
+  split
+  · rfl
+  · split
+    · rename_i h1 h2; exfalso; apply h2; simp [sliceOK]; omega
+    · rfl
+
+theorem no_panic_commentAuthor' (a : Int) (n : Nat) : (commentAuthor a n).isPanic = false := by
+  unfold commentAuthor
+  split
+  · rename_i h; rw [inRange_of (by omega) (by omega)]; rfl
+  · rfl
+
+theorem no_panic_richRuns' (rs : List Bool) : (richRuns rs).isPanic = false := by
+  induction rs with
+  | nil => rfl
+  | cons r rest ih =>
+    unfold richRuns
+    apply bind_no_panic
+    · cases r <;> rfl
+    · intro a _; apply bind_no_panic _ _ ih; intro t _; rfl
+
+theorem no_panic_condFmt' (n : Nat) : (condFmtCellIs n).isPanic = false := by
+  unfold condFmtCellIs
+  split
+  · rename_i h; subst h; rfl
+  · split
+    · rename_i h; rw [inRange_of (by omega) (by omega)]; rfl
+    · rfl
+
+theorem no_panic_mergeCellHit' (c r : Int) (rect : List Int) : (mergeCellHit c r rect).isPanic = false := by
+  unfold mergeCellHit
+  split
+  · rename_i h
+    match rect, h with
+    | [a, b, c', d], _ => rfl
+  · rfl
+
+/-! merged-cell matrix -/
+
+def RcPos (r : Rc) : Prop := 1 ≤ r.x1 ∧ 1 ≤ r.y1 ∧ 1 ≤ r.x2 ∧ 1 ≤ r.y2
+
+theorem overlapRange_ge (rs : List Rc) : ∀ (acc : Int × Int),
+    acc.1 ≤ (overlapRange rs acc).1 ∧ acc.2 ≤ (overlapRange rs acc).2 ∧
+    ∀ r ∈ rs, r.y1 ≤ (overlapRange rs acc).1 ∧ r.y2 ≤ (overlapRange rs acc).1 ∧
+              r.x1 ≤ (overlapRange rs acc).2 ∧ r.x2 ≤ (overlapRange rs acc).2 := by
+  induction rs with
+  | nil => intro acc; exact ⟨Int.le_refl _, Int.le_refl _, fun r h => by cases h⟩
+  | cons x xs ih =>
+    intro acc
+    obtain ⟨row, col⟩ := acc
+    unfold overlapRange
+    simp only
+    have hr : row ≤ (if x.y2 > (if x.y1 > row then x.y1 else row) then x.y2 else (if x.y1 > row then x.y1 else row)) ∧
+        x.y1 ≤ (if x.y2 > (if x.y1 > row then x.y1 else row) then x.y2 else (if x.y1 > row then x.y1 else row)) ∧
+        x.y2 ≤ (if x.y2 > (if x.y1 > row then x.y1 else row) then x.y2 else (if x.y1 > row then x.y1 else row)) := by
+      split <;> split <;> omega
+    have hc : col ≤ (if x.x2 > (if x.x1 > col then x.x1 else col) then x.x2 else (if x.x1 > col then x.x1 else col)) ∧
+        x.x1 ≤ (if x.x2 > (if x.x1 > col then x.x1 else col) then x.x2 else (if x.x1 > col then x.x1 else col)) ∧
+        x.x2 ≤ (if x.x2 > (if x.x1 > col then x.x1 else col) then x.x2 else (if x.x1 > col then x.x1 else col)) := by
+      split <;> split <;> omega
+    generalize (if x.y2 > (if x.y1 > row then x.y1 else row) then x.y2 else (if x.y1 > row then x.y1 else row)) = row' at hr ⊢
+    generalize (if x.x2 > (if x.x1 > col then x.x1 else col) then x.x2 else (if x.x1 > col then x.x1 else col)) = col' at hc ⊢
+    obtain ⟨h1, h2, h3⟩ := ih (row', col')
+    simp only at h1 h2
+    refine ⟨by omega, by omega, ?_⟩
+    intro r hr'
+    cases hr' with
+    | head => exact ⟨by omega, by omega, by omega, by omega⟩
+    | tail _ hm => exact h3 r hm
+
+theorem overlapRange_le (B C : Int) (rs : List Rc) : ∀ (acc : Int × Int), acc.1 ≤ B → acc.2 ≤ C →
+    (∀ r ∈ rs, r.y1 ≤ B ∧ r.y2 ≤ B ∧ r.x1 ≤ C ∧ r.x2 ≤ C) →
+    (overlapRange rs acc).1 ≤ B ∧ (overlapRange rs acc).2 ≤ C := by
+  induction rs with
+  | nil => intro acc h1 h2 _; exact ⟨h1, h2⟩
+  | cons x xs ih =>
+    intro acc h1 h2 h
+    obtain ⟨row, col⟩ := acc
+    have hx := h x List.mem_cons_self
+    unfold overlapRange
+    simp only
+    apply ih
+    · simp only at h1 ⊢; split <;> split <;> omega
+    · simp only at h2 ⊢; split <;> split <;> omega
+    · intro r hr; exact h r (List.mem_cons_of_mem _ hr)
+
+theorem no_panic_mergeMatrix' (rs : List Rc) (h : ∀ r ∈ rs, RcPos r) : (mergeMatrix rs).isPanic = false := by
+  unfold mergeMatrix
+  have hb := overlapRange_ge rs (0, 0)
+  generalize overlapRange rs (0, 0) = res at hb
+  obtain ⟨rows, cols⟩ := res
+  simp only at hb ⊢
+  split
+  · rfl
+  · split
+    · omega
+    · have : rs.all (paintOK rows cols) = true := by
+        rw [List.all_eq_true]
+        intro r hr
+        have hp := h r hr
+        have hm := hb.2.2 r hr
+        obtain ⟨p1, p2, p3, p4⟩ := hp
+        unfold paintOK
+        simp only [Bool.and_eq_true, decide_eq_true_eq]
+        refine ⟨⟨⟨⟨?_, by omega⟩, by omega⟩, by omega⟩, by omega⟩
+        split
+        · simp only [Bool.and_eq_true, decide_eq_true_eq]; omega
+        · rfl
+      rw [this]; rfl
+
+/-! compound file -/
+
+theorem no_panic_checkCfbHeader' (len shift : Nat) (cs : List Nat) : (checkCfbHeader len shift cs).isPanic = false := by
+  unfold checkCfbHeader
+  split
+  · rfl
+  · split
+    · rename_i h1 h2; exfalso; apply h2; simp [sliceOK]; omega
+    · split
+      · rfl
+      · split
+        · rename_i h; exfalso; apply h; simp [sliceOK]; omega
+        · split <;> rfl
+
+theorem extractAlloc_le (size : Int) (limit : Nat) : extractAlloc size limit ≤ limit := by
+  unfold extractAlloc; split <;> omega
+
+/-! agile -/
+
+theorem no_panic_agileCheck' (i : AgIn) : (agileCheck i).isPanic = false := by
+  unfold agileCheck
+  split; · rfl
+  split; · rfl
+  split; · rfl
+  rename_i h _ _
+  rw [inRange_of (by omega) (by omega)]
+  simp only [not_true_eq_false, if_false]
+  split; · rfl
+  split <;> rfl
+
+theorem agileCheck_ok {i : AgIn} (h : agileCheck i = .ok ()) :
+    0 < i.nKE ∧ i.blockSize = 16 ∧ 0 < i.hashLen ∧ 0 ≤ i.keyBits ∧ 0 ≤ i.spinCount ∧ i.spinCount ≤ 10000000 := by
+  unfold agileCheck at h
+  split at h; · cases h
+  split at h; · cases h
+  split at h; · cases h
+  split at h; · cases h
+  split at h; · cases h
+  split at h; · cases h
+  omega
+
+theorem no_panic_agileKeyLen' (i : AgIn) (hk : 0 < i.nKE) (hb : 0 ≤ i.keyBits) : (agileKeyLen i).isPanic = false := by
+  unfold agileKeyLen
+  rw [inRange_of (by omega) (by omega)]
+  simp only [not_true_eq_false, if_false]
+  split; · rfl
+  split; · rfl
+  split
+  · rename_i h1 h2
+    have : 0 ≤ i.keyBits / 8 := Int.ediv_nonneg hb (by omega)
+    rw [if_pos ⟨this, by omega⟩]; rfl
+  · rfl
+
+theorem no_panic_cbcDecrypt' (k v n : Nat) : (cbcDecrypt k v n).isPanic = false := by
+  unfold cbcDecrypt
+  split; · rfl
+  split; · rfl
+  rename_i h
+  rw [if_pos (by omega)]; rfl
+
+theorem no_panic_createIV' (i : AgIn) (hb : i.blockSize = 16) : (createIV i).isPanic = false := by
+  unfold createIV
+  split; · rfl
+  split; · rfl
+  split
+  · rename_i h; rw [if_pos (by omega)]; rfl
+  · rfl
+
+theorem no_panic_padChunk' (n : Nat) (b : Int) (hb : b = 16) : (padChunk n b).isPanic = false := by
+  unfold padChunk
+  rw [if_neg (by omega), if_neg (by omega)]
+  simp only
+  split <;> rfl
+
+theorem no_panic_pkgLoop' (i : AgIn) (hb : i.blockSize = 16) (h8 : 8 ≤ i.pkgLen) (ht : tailOK i.pkgLen = true) :
+    ∀ (fuel e : Nat), (e % 4096 = 0 ∨ e = i.pkgLen) → (pkgLoop i fuel e).isPanic = false := by
+  intro fuel
+  induction fuel with
+  | zero => intro e _; rfl
+  | succ f ih =>
+    intro e he
+    unfold pkgLoop
+    split
+    · rename_i hlt
+      simp only
+      have hmod : e % 4096 = 0 := by omega
+      simp only [tailOK, Bool.or_eq_true, decide_eq_true_eq] at ht
+      have hs : sliceOK i.pkgLen (e + 8) (if (if e + 4096 > i.pkgLen then i.pkgLen else e + 4096) + 8 < i.pkgLen
+          then (if e + 4096 > i.pkgLen then i.pkgLen else e + 4096) + 8 else (if e + 4096 > i.pkgLen then i.pkgLen else e + 4096)) = true := by
+        simp only [sliceOK, Bool.and_eq_true, decide_eq_true_eq]
+        split <;> split <;> omega
+      rw [hs]
+      simp only [not_true_eq_false, if_false]
+      apply bind_no_panic _ _ (no_panic_padChunk' _ _ hb)
+      intro n _
+      apply bind_no_panic _ _ (no_panic_createIV' i hb)
+      intro iv _
+      apply bind_no_panic _ _ (no_panic_cbcDecrypt' _ _ _)
+      intro _ _
+      apply ih
+      split <;> omega
+    · rfl
+
+
+theorem targetFrom_bound (rowNum : Int) : ∀ (n k : Nat) (t : List Cell),
+    targetFrom rowNum k n = some t → n = 0 ∨ k + n ≤ Facts.MaxColumns := by
+  intro n
+  induction n with
+  | zero => intro k t _; left; rfl
+  | succ n ih =>
+    intro k t h
+    right
+    unfold targetFrom at h
+    split at h
+    · rename_i hv
+      cases ht : targetFrom rowNum (k + 1) n with
+      | none => simp [ht] at h
+      | some t' =>
+        rcases ih (k + 1) t' ht with h0 | h1
+        · subst h0
+          simp only [validCoord, Bool.and_eq_true, decide_eq_true_eq] at hv
+          omega
+        · omega
+    · cases h
+
+theorem scatter_length (src : List Cell) : ∀ (tgt cs : List Cell), scatter tgt src = .ok cs → cs.length = tgt.length := by
+  induction src with
+  | nil => intro tgt cs h; simp [scatter] at h; subst h; rfl
+  | cons d ds ih =>
+    intro tgt cs h
+    unfold scatter at h
+    split at h
+    · cases h
+    · split at h
+      · cases h
+      · have := ih _ _ h
+        simpa using this
+
+/-- a row rebuilt by `checkRow` is never wider than MaxColumns (otherwise it keeps its width) -/
+theorem checkRowOne_width (rowNum : Int) (rw rw' : Row) (h : checkRowOne rowNum rw = .ok rw') :
+    rw'.cells.length ≤ Facts.MaxColumns ∨ rw'.cells.length = rw.cells.length := by
+  unfold checkRowOne at h
+  split at h
+  · cases h; right; rfl
+  split at h
+  · cases h
+  rename_i cells hf
+  have hl : cells.length = rw.cells.length := by
+    have : ∀ (cs : List Cell) (rc : Int) (out : List Cell), fillRefs rowNum cs rc = some out → out.length = cs.length := by
+      intro cs
+      induction cs with
+      | nil => intro rc out h; simp [fillRefs] at h; subst h; rfl
+      | cons d ds ih =>
+        intro rc out h
+        unfold fillRefs at h
+        simp only at h
+        split at h
+        · cases ht : fillRefs rowNum ds (rc + 1) with
+          | none => simp [ht] at h
+          | some t => simp only [ht, Option.map_some, Option.some.injEq] at h; subst h; simp [ih _ _ ht]
+        · split at h
+          · cases h
+          · rename_i lastR _ _
+            cases ht : fillRefs rowNum ds (if lastR > rc + 1 then lastR else rc + 1) with
+            | none => simp [ht] at h
+            | some t => simp only [ht, Option.map_some, Option.some.injEq] at h; subst h; simp [ih _ _ ht]
+    exact this _ _ _ hf
+  split at h
+  · cases h
+  split at h
+  · cases h
+  split at h
+  · split at h
+    · cases h
+    rename_i mc _
+    split at h
+    · cases h
+    rename_i tgt htg
+    cases hs : scatter tgt cells with
+    | ok cs =>
+      rw [hs] at h; simp only [Outcome.bind, Outcome.ok.injEq] at h
+      subst h
+      left
+      simp only
+      rw [scatter_length _ _ _ hs, targetFrom_length rowNum mc.toNat 0 tgt htg]
+      rcases targetFrom_bound rowNum mc.toNat 0 tgt htg with h0 | h1
+      · omega
+      · omega
+    | err => rw [hs] at h; simp [Outcome.bind] at h
+    | panic => rw [hs] at h; simp [Outcome.bind] at h
+  · simp only [Outcome.ok.injEq] at h; subst h; right; simpa using hl
+
 end XlModel.Decode
